@@ -77,7 +77,7 @@ def values_for(rng, name, shape, spread):
         lo, hi = max(lo, 0), min(hi, 100)
     if spread == "lifted":
         # a detector pedestal: the smallest count is a few units above zero (unsigned) / above the dtype minimum
-        lo, hi = (lo if dt.kind == "f" else max(lo, 0)) + int(rng.integers(2, 40)), min(hi, 4000 if dt.itemsize > 1 else hi)
+        lo, hi = (lo if dt.kind == "f" else max(lo, 0)) + int(rng.integers(1, 40)), min(hi, 4000 if dt.itemsize > 1 else hi)
     if spread == "pedestal":
         # small signal on a large constant level: exactly representable in the integer dtype and in float64, but not
         # in float32 -- the float64 route and the integer route must still agree
